@@ -16,7 +16,7 @@ keep_tree = Unit(
     params={"source": "str", "new_source": "str"}, returns="str",
     ensures=[("returns-one-of-its-arguments", "result == source or result == new_source"),
              ("a-different-tree-is-never-returned", "implies(core.is_valid_python(source) and result != source, core.is_valid_python(result) and _sources_equivalent(source, result))")],
-    calls={"core.is_valid_python": ("uf", "bool"), "_sources_equivalent": ("uf", "bool")}, props=("C11",),
+    calls={"core.is_valid_python": ("uf", "bool"), "_sources_equivalent": ("uf", "bool")}, props=("C11", "C03"),
 )
 
 UNITS = [keep_tree]
